@@ -228,13 +228,12 @@ def op_write_read(ctx, st, op, prop, info):
         wrote = False
         if fault and fault["kind"] in ("enospc", "eio_write", "crash_in_write", "short_write"):
             fault["at"] = _fault_offset(ref_bytes, fault)
-            fault["path"] = path
-            live = fs.arm(fault)
+            live = fs.arm(fault)            # applies to whatever file the write opens (also a temporary name)
             st.fault_kind = fault["kind"]
             try:
                 write_obj(fs, obj, path, dmc, dfn)
                 wrote = True
-                if fault["kind"] != "short_write":
+                if fault["kind"] != "short_write" and live.get("fired"):
                     ctx.check(False, "write_fault_swallowed",
                               f"{which}: {fault['kind']} after {fault['at']} bytes but the write returned normally",
                               key={"which": which, "kind": fault["kind"]}) if judge else None
@@ -264,8 +263,9 @@ def op_write_read(ctx, st, op, prop, info):
                     d = snapdiff(before, snap(obj))
                     ctx.check(d is None, "failed_write_changed_object",
                               f"{which}: a failed write changed the object: {d}", key={"which": which})
-                    ctx.check(len(fs.read_bytes(path)) <= fault["at"], "harness_prefix",
-                              "more bytes on disk than the device accepted")
+                    if fs.exists(path):      # (an implementation writing to a temporary name leaves no file here)
+                        ctx.check(len(fs.read_bytes(path)) <= max(fault["at"], len(ref_bytes)), "harness_prefix",
+                                  "more bytes on disk than the device accepted")
             finally:
                 fs.disarm()
             if not wrote:
